@@ -286,7 +286,7 @@ DIMS = {
     'extscope': ['global', 'split'],
     'spell': ['simple', 'partial', 'full'],
     'nprov': [0, 1, 2, 3], 'nreq': [0, 1, 2, 3], 'ninj': [0, 1, 3],
-    'share': [True, False],
+    'share': [True, False, 'aba'],      # 'aba': the first and third port of a side share an interface, the second has another
     'menu': ['full', 'empty', 'inonly', 'outonly'],
     'evorder': ['grouped', 'interleaved', 'outsfirst', 'reversed'],
     'names': ['plain', 'caps', 'under', 'evlike', 'pykw', 'long'],
@@ -407,6 +407,8 @@ def valid_point(pt):
         return False
     if pt['spell'] == 'partial' and len(ns) < 2 and pt['place'] == 'same':
         return False
+    if pt.get('share') == 'aba' and (max(pt['nprov'], pt['nreq']) < 3 or pt.get('extscope') == 'split'):
+        return False
     if pt['mc'] != 'none':
         if pt['psem'] != 'MTS' or pt['nprov'] < 1:
             return False
@@ -482,7 +484,8 @@ def build_model(pt):
 
     ports = []
     nprov, nreq, ninj = pt['nprov'], pt['nreq'], pt['ninj']
-    if pt['share'] and mc_port is None and not split:
+    aba = pt['share'] == 'aba'
+    if pt['share'] and not aba and mc_port is None and not split:
         make_itf('IShared', False)
         for i in range(nprov):
             ports.append([pnames[i], written('IShared'), 'provides', False])
@@ -495,6 +498,11 @@ def build_model(pt):
             if mc_port == i:
                 make_itf(f'IMc{i}', True)
                 ports.append([pnames[i], written(f'IMc{i}'), 'provides', False])
+            elif aba:
+                name = 'IPa' if i != 1 else 'IPb'
+                if not have_itf(name):
+                    make_itf(name, False)
+                ports.append([pnames[i], written(name), 'provides', False])
             elif pt['share'] and not split:
                 if not have_itf('IShared'):
                     make_itf('IShared', False)
@@ -503,7 +511,12 @@ def build_model(pt):
                 make_itf(f'IP{i}', False)
                 ports.append([pnames[i], written(f'IP{i}'), 'provides', False])
         for i in range(nreq):
-            if pt['share'] and not split:
+            if aba:
+                name = 'IRa' if i != 1 else 'IRb'
+                if not have_itf(name):
+                    make_itf(name, False)
+                ports.append([rnames[i], written(name), 'requires', False])
+            elif pt['share'] and not split:
                 if not have_itf('IShared'):
                     make_itf('IShared', False)
                 ports.append([rnames[i], written('IShared'), 'requires', False])
@@ -629,6 +642,7 @@ def lab_points(k):
                       {'extscope': 'split', 'nprov': 2, 'nreq': 2, 'ns': 'N.M'},
                       {'mc': 'p1:0', 'nprov': 2},                                  # multi-client port named 'p2' next to 'p'
                       {'mc': 'p1:0', 'nprov': 3, 'nreq': 3, 'names': 'caps'},       # ... in the middle of three
+                      {'nprov': 3, 'nreq': 3, 'share': 'aba'},                     # same interface on non-adjacent ports
                       {'nprov': 3, 'nreq': 3, 'rsem': 'lastmts'}):
             pt = dict(base)
             pt.update(delta)
